@@ -385,6 +385,11 @@ impl Engine {
                 e.thread_start(token);
                 let r = std::panic::catch_unwind(std::panic::AssertUnwindSafe(f));
                 e.thread_exit(r.is_err());
+                // the OS thread stays around: its thread-local destructors (e.g. may's per-thread proxy
+                // coroutine sender) would otherwise run hooked code outside the engine's control
+                loop {
+                    std::thread::park();
+                }
             })
             .expect("spawn harness thread");
         // creating a thread is a scheduling point
@@ -864,6 +869,14 @@ impl Hooks for Engine {
         }
         let mut st = self.lock();
         self.record(&mut st, me, op, addr, loc);
+        if st.branching && crate::alloc::quarantined(addr) {
+            // the operation that is about to execute touches memory that has been freed
+            let f = loc.file();
+            let rel = f.rsplit_once("/repo/").map(|x| x.1).unwrap_or(f);
+            let clause = format!("use_after_free@{}", rel);
+            let msg = format!("use after free: {:?} at {}:{} is about to access {:#x}, which lies in a freed (quarantined) block", op, rel, loc.line(), addr);
+            self.finish_locked(st, ST_FAIL, &clause, &msg);
+        }
         if st.cfg.coarse && st.th[me].bracket > 0 {
             return;
         }
